@@ -13,6 +13,7 @@ python3 tools/gen_pes.py
 python3 tools/gen_iters.py
 python3 tools/gen_pmt.py
 python3 tools/gen_tables.py
+python3 tools/gen_push.py
 (cd lean && lake build Ts driver)
 (cd harness && CARGO_TARGET_DIR=target cargo build --release --offline)
 (cd harness && CARGO_TARGET_DIR=target-fuzzing RUSTFLAGS="--cfg fuzzing" cargo build --release --offline)
